@@ -32,6 +32,11 @@ def floors(tier):
     return {'windows_checked': 1200, 'len:time_ops': 9, 'len:models': 3, 'rejections_checked': 100, 'limit_after_join_checked': 100}
 
 
+def ceilings(tier):
+    # fractions of all evaluations; the unchanged tree stays below about two thirds of each
+    return {'not_interpretable': 0.02, 'internal_error_is_C09': 0.01}
+
+
 def make_rows(r):
     rows = []
     n = r.randint(0, 14)
